@@ -22,6 +22,7 @@ func c08(p *core.Prog, r *core.Report) {
 	r.Rule("C08-R1", "E6 who-may-write", 4, "received frames are forwarded unmodified except id / ttl / checksum")
 	r.Rule("C08-R2", "E6 provenance", 5, "message id remapping")
 	r.Rule("C08-R4", "E5 layout", 2, "lazy parsers agree with the specified layouts")
+	checksumSizes(p, r, "C08-R4")
 	r.Rule("C08-R5", "E6 ordering/provenance", 6, "arg2 append keeps the original pairs first and arg1/arg3 unchanged")
 	c08Writes(p, r)
 	c08IDs(p, r)
@@ -43,6 +44,9 @@ func c08(p *core.Prog, r *core.Report) {
 	r.Alias("C09-R4", "C08-R8")
 	c09Forget(p, r)
 	r.Alias("C09-R4", "")
+	r.Alias("C09-R3", "C08-R8")
+	c09Pending(p, r)
+	r.Alias("C09-R3", "")
 	r.Rule("C08-R7", "E6 census/paths", 3, "pooled per-call objects carry nothing from the previous call (shared with C04)")
 	r.Alias("C04-R7", "C08-R7")
 	c04Pools(p, r)
